@@ -331,7 +331,7 @@ def _analyse_loop(bname, loop, kind, after):
     for s, held in _flatten(after):
         read_after |= {n.id for n in ast.walk(s) if isinstance(n, ast.Name) and isinstance(n.ctx, ast.Load)}
     leaks = sorted((inner_bound - {loop.index}) & read_after - set(kind))
-    for s, held in flat:
+    for istmt, (s, held) in enumerate(flat):
         held_locks = [h for h in held if h in locks]       # locks created in the body are no locks
         mut = set()
         for m in _mutated(s):
@@ -348,11 +348,11 @@ def _analyse_loop(bname, loop, kind, after):
         slots = _slot_writes(s, loop.index)
         irr = bool(getattr(held, 'irregular', False))
         for name in sorted(mut):
-            steps.append(dict(op='slot' if name in slots else 'rmw', arr=arr_index(name), locks=[locks.index(h) + 1 for h in held_locks], irregular=irr))
+            steps.append(dict(op='slot' if name in slots else 'rmw', arr=arr_index(name), locks=[locks.index(h) + 1 for h in held_locks], irregular=irr, stmt=istmt))
         for name in sorted(refs - mut):
-            steps.append(dict(op='read', arr=arr_index(name), locks=[locks.index(h) + 1 for h in held_locks], irregular=irr))
+            steps.append(dict(op='read', arr=arr_index(name), locks=[locks.index(h) + 1 for h in held_locks], irregular=irr, stmt=istmt))
         for name in sorted(_bound(s) & set(leaks)):
-            steps.append(dict(op='rmw', arr=arr_index(name), locks=[locks.index(h) + 1 for h in held_locks], irregular=irr))
+            steps.append(dict(op='rmw', arr=arr_index(name), locks=[locks.index(h) + 1 for h in held_locks], irregular=irr, stmt=istmt))
         if mut or (refs - mut):
             detail.append(dict(stmt=ast.unparse(s)[:120], writes=sorted(mut), reads=sorted(refs - mut), held=list(held)))
     # only arrays that are written in the loop matter for mutual exclusion; reads of arrays that are
@@ -381,6 +381,19 @@ def _analyse_loop(bname, loop, kind, after):
 def analyse_function(fn):
     """the same export for a hand written parallel loop of nutils (topology.Topology._locate)"""
     return analyse(inspect.getsource(fn))
+
+
+def statements(rec):
+    """one step per statement of the script (a statement that touches several arrays is exported as several steps
+    with the same locks; a recorded execution takes the locks once per statement): the writing step is kept"""
+    out = []
+    for st in rec['body']:
+        if out and out[-1]['stmt'] == st['stmt']:
+            if out[-1]['op'] == 'read' and st['op'] != 'read':
+                out[-1] = st
+            continue
+        out.append(st)
+    return out
 
 
 def signature(rec):
